@@ -19,6 +19,7 @@ import KVerif.Drv.C11 -- C11
 import KVerif.Drv.C06
 import KVerif.Drv.C08
 import KVerif.Drv.C09
+import KVerif.Drv.C03 -- C03
 open KVerif.Drv
 
 /-- kvdrv <prop>: one case line in, one `M <model> ## S <spec>` line out. -/
@@ -54,6 +55,7 @@ def dispatch (prop : String) : Option (String → String × String) :=
   | "C08o" => some C08.runOracle
   | "C09" => some C09.run
   | "C09o" => some C09.runOracle
+  | "C03" => some C03.run -- C03
   | _ => none
 
 partial def loop (h : IO.FS.Stream) (out : IO.FS.Stream) (f : String → String × String) : IO Unit := do
